@@ -13,6 +13,9 @@ from checks.c11 import LAYOUT_ERR_SEEDS
 
 FILE_SEEDS = ["x = 1\n", "é = 'ü'\n", "x = (1,\n\n 2 3)\n", "x = 1\r\ny = 2\r\n", "x y\r\n", "'''a\nb''' = 1\n", "x = 1", "# c", "if a:\n  b\n c\n", "x = 'é' 5\n",
               "x = (\n'''a\nb'''\n c d)\n", "f!(a, [b)\n", "with! a:\n", "x = '''a\r\nb'''\r\n", "def f():\n\treturn 1\n", "\n\n\nx y\n", "x = [\n  # é\n  1 2]\n", "print('ü') if\n"]
+# what only FILES have: coding cookies (PEP 263), shebang lines, a signature - the parser reads UTF-8 whatever they say, at every site
+FILE_SEEDS += ["# -*- coding: latin-1 -*-\nmenu = ('caf\xe9' 2)\n", "#!/usr/bin/env xonsh\n# vim: set fileencoding=klingon :\nx = (1 2)\n", "# coding: ascii\nx = '\xe9' y\n",
+               "#!/bin/sh\n# -*- coding: utf-8 -*-\n\xe9 = 1 2\n", "\ufeffx = 1\n", "\ufeffx = (1 2)\n", "# coding=cp1252\ns = '\u20ac'\nt = (s s)\n", "#!xonsh\necho hi\nx y\n"]
 _TMP = None
 
 
